@@ -154,31 +154,49 @@ inductive ReadOut (α : Type) where
   | unmodelled
 deriving Repr
 
-/-- `readDescription(desc)` (Constraints.h:251), repaired: blanks around the bounds are dropped -/
+/-- the second half of `readDescription`: the flags are written, then the lower bound text `deb`
+is interpreted and written, then the upper bound text `fin` (Constraints.h:265-270) -/
+def readCore (c : Interval α) (il iu : Bool) (deb fin : List Char) : ReadOut α :=
+  let c1 := { c with inclLo := il, inclHi := iu }
+  let lo : NumParse (Bound α) :=
+    if deb == "-inf".toList then .ok .negInf else
+    match (NumText.parseNum deb : NumParse α) with
+    | .ok x => .ok (.fin x)
+    | .reject => .reject
+    | .unmodelled => .unmodelled
+  match lo with
+  | .unmodelled => .unmodelled
+  | .reject => .done c1 true
+  | .ok lo =>
+    let c2 := { c1 with lo := lo }
+    if fin == "+inf".toList || fin == "inf".toList then .done { c2 with hi := .posInf } false else
+    match (NumText.parseNum fin : NumParse α) with
+    | .ok x => .done { c2 with hi := .fin x } false
+    | .reject => .done c2 true
+    | .unmodelled => .unmodelled
+
+/-- `readDescription(desc)` (Constraints.h:251), repaired: blanks around the two bound texts are
+dropped (`removeSurroundingWhiteSpaces`) before they are interpreted -/
 def readDescription (c : Interval α) (desc : List Char) : ReadOut α :=
   match findSemi desc, findBracket1 desc with
   | some pdp, some dc =>
     if (desc.head? != some ']' && desc.head? != some '[') || pdp ≥ dc then .done c true else
     let deb := trim ((desc.drop 1).take (pdp - 1))
     let fin := trim ((desc.drop (pdp + 1)).take (dc - pdp - 1))
-    let c1 := { c with inclLo := desc.head? == some '[', inclHi := (desc.drop dc).head? == some ']' }
-    let lo : NumParse (Bound α) :=
-      if deb == "-inf".toList then .ok .negInf else
-      match (NumText.parseNum deb : NumParse α) with
-      | .ok x => .ok (.fin x)
-      | .reject => .reject
-      | .unmodelled => .unmodelled
-    match lo with
-    | .unmodelled => .unmodelled
-    | .reject => .done c1 true
-    | .ok lo =>
-      let c2 := { c1 with lo := lo }
-      if fin == "+inf".toList || fin == "inf".toList then .done { c2 with hi := .posInf } false else
-      match (NumText.parseNum fin : NumParse α) with
-      | .ok x => .done { c2 with hi := .fin x } false
-      | .reject => .done c2 true
-      | .unmodelled => .unmodelled
+    readCore c (desc.head? == some '[') ((desc.drop dc).head? == some ']') deb fin
   | _, _ => .done c true
+
+namespace Legacy
+/-- `readDescription` as found: the texts between the delimiters reach `toDouble` with their blanks -/
+def readDescription (c : Interval α) (desc : List Char) : ReadOut α :=
+  match findSemi desc, findBracket1 desc with
+  | some pdp, some dc =>
+    if (desc.head? != some ']' && desc.head? != some '[') || pdp ≥ dc then .done c true else
+    let deb := (desc.drop 1).take (pdp - 1)
+    let fin := (desc.drop (pdp + 1)).take (dc - pdp - 1)
+    readCore c (desc.head? == some '[') ((desc.drop dc).head? == some ']') deb fin
+  | _, _ => .done c true
+end Legacy
 
 end
 
